@@ -384,6 +384,8 @@ for _id, _sc in _SCOPES.items():
     PROPERTIES[_id]["rules"].append((G.G26_any_of_indices, "%s emptiness of an index collection is not tested by the truth of its elements" % _id, {"scope": _sc}))
     PROPERTIES[_id]["rules"].append((G.G27_unique_count_vs_size, "%s a count of distinct values is not compared with a size (repeated entries)" % _id, {"scope": _sc}))
     PROPERTIES[_id]["rules"].append((G.G28_alias_sibling_update, "%s sibling branches update an array stored in an object consistently (in place vs re-binding)" % _id, {"scope": _sc}))
+    PROPERTIES[_id]["rules"].append((G.G29_parallel_filter_in_loop, "%s a list filtered through a parallel list inside a loop keeps the partner in step" % _id, {"scope": _sc}))
+    PROPERTIES[_id]["rules"].append((G.G30_nonzero_rows_with_multiplicity, "%s indices taken from one axis of a 2-D hit matrix are de-duplicated before they become items" % _id, {"scope": _sc}))
     PROPERTIES[_id]["rules"].append((G.G12_set_order, "%s a sequence made from a set is not used as an ordered selector" % _id, {"scope": _sc}))
     PROPERTIES[_id]["rules"].append((G.G10_defined_before_use, "%s every read of a local is reached by an assignment (no statement moved above the one that defines its input)" % _id, {"scope": _sc}))
     PROPERTIES[_id]["rules"].append((G.G7_api_contract_pitfalls, "%s API contracts: insertion points as indices, span versus length, memoised functions / caching properties, stored tables tested by truth value" % _id, {"scope": _sc}))
@@ -416,7 +418,8 @@ _EXTRA = {
             (C.C_idx_find, "C05 the index tuples, positions and rotations returned by the search stay parallel (a replacement is placed at the site whose atoms it removes)"),
             (C.C_wrap_modulus, "C05 inserted atoms are wrapped with period exactly 1 in fractional coordinates (inside the cell, by a lattice translation)"),
             (C.C_roll_gate, "C05 the roll about the matched axis is applied to every match with more than two atoms"),
-            (A.A6_rotation_gate, "C05 the rotation handed to the replacement is the one whose rotated pattern was re-checked against the matched atoms (an unchecked rotation places the fragment arbitrarily)")],
+            (A.A6_rotation_gate, "C05 the rotation handed to the replacement is the one whose rotated pattern was re-checked against the matched atoms (an unchecked rotation places the fragment arbitrarily)"),
+            (A2.A14b_fallback_axis, "C05 'moving search and replacement pattern together by any rigid motion does not change the result': antiparallel poses are found whatever the axis (non-degenerate fallback axis)")],
     "C06": [(C.C_idx_replace, "C06.2 index tuples, positions and rotations of the matches stay parallel, so the terms of an inserted fragment are attached to the atoms of the same match"),
             (A2.A11_pop_deletes, "C06 the final deletion of the replaced atoms re-indexes the surviving terms with correctly normalised indices"),
             (A2.A10_descending_contract, "C06 terms of removed atoms are dropped and the others re-indexed under the callers' descending order")],
@@ -440,7 +443,8 @@ _EXTRA = {
             (D2.D9_type_string_parsing, "C18.5 element and hybridisation character are derived correctly from every one of the 221 type labels")],
     "C19": [(D2.D5_torsion_table, "C19 'dihedrals for which no torsion is defined are dropped' rests on dihedral_params returning None exactly for the documented cases"),
             (D2.D6_bond_order_precedence, "C19 term parameters honour the user bond-order rules")],
-    "C20": [(A2.A18d_option_decisions, "C20 every optional stage runs exactly when its option is given; find/replace decision over the four combinations of -f and -r; minimum-image factor 2*mic/length; flag defaults"),
+    "C20": [(E.E_dispatch, "C20 the command line loads and saves through Atoms.load / Atoms.save: the file type of every path argument is what follows the LAST dot, explicit type beats extension"),
+            (A2.A18d_option_decisions, "C20 every optional stage runs exactly when its option is given; find/replace decision over the four combinations of -f and -r; minimum-image factor 2*mic/length; flag defaults"),
             (A2.A18c_option_types, "C20 every option delivers the kind of value its use needs; command-line defaults equal the API defaults; library formats go to the library loader/saver"),
             (A2.A18b_pair_params_parallel, "C20 --pp: one pair coefficient and one label per atom type, in type order"),
             (C.C_axis_diag, "C20 --mic: the cell diagonal is the box only under the exact orthorhombic test")],
